@@ -72,6 +72,7 @@ func Load(path string) (*Graph, error) {
 	g := &Graph{index: map[string]int{}, Out: map[int][]*Edge{}}
 	type rawEdge struct {
 		from, to string
+		rawE     string
 		ed       *Edge
 		meta     M
 		err      error
@@ -107,18 +108,17 @@ func Load(path string) (*Graph, error) {
 					outc <- rawEdge{err: fmt.Errorf("bad json: %w", err)}
 					continue
 				}
-				var e, resp, failed any
+				var resp, failed any
 				var ok bool
-				_ = json.Unmarshal(obj["e"], &e)
 				_ = json.Unmarshal(obj["resp"], &resp)
 				_ = json.Unmarshal(obj["failed"], &failed)
 				_ = json.Unmarshal(obj["ok"], &ok)
-				ed := &Edge{E: absx.Map(absx.Norm(e)), OK: ok, Resp: absx.Map(absx.Norm(resp))}
+				ed := &Edge{OK: ok, Resp: absx.Map(absx.Norm(resp))}
 				for _, f := range absx.List(absx.Norm(failed)) {
 					ed.Failed = append(ed.Failed, absx.Str(f))
 				}
 				sort.Strings(ed.Failed)
-				re := rawEdge{from: string(obj["from"]), ed: ed}
+				re := rawEdge{from: string(obj["from"]), rawE: string(obj["e"]), ed: ed}
 				if ok {
 					re.to = string(obj["to"])
 				}
@@ -154,6 +154,16 @@ func Load(path string) (*Graph, error) {
 		rawIndex[raw] = i
 		return i
 	}
+	// identical raw texts (the same state or the same event printed on many edges) share one string and one decoded value
+	pool := map[string]string{}
+	share := func(s string) string {
+		if c, ok := pool[s]; ok {
+			return c
+		}
+		pool[s] = s
+		return s
+	}
+	events := map[string]M{}
 	var all []rawEdge
 	for re := range outc {
 		if re.err != nil {
@@ -163,14 +173,26 @@ func Load(path string) (*Graph, error) {
 			g.Meta = re.meta
 			continue
 		}
+		re.from, re.to, re.rawE = share(re.from), share(re.to), share(re.rawE)
+		ev, ok := events[re.rawE]
+		if !ok {
+			var e any
+			if err := json.Unmarshal([]byte(re.rawE), &e); err != nil {
+				return nil, err
+			}
+			ev = absx.Map(absx.Norm(e))
+			events[re.rawE] = ev
+		}
+		re.ed.E = ev
 		all = append(all, re)
 	}
+	pool = nil
 	// deterministic edge order regardless of worker scheduling
 	sort.Slice(all, func(i, j int) bool {
 		if all[i].from != all[j].from {
 			return all[i].from < all[j].from
 		}
-		return absx.Canon(all[i].ed.E) < absx.Canon(all[j].ed.E)
+		return all[i].rawE < all[j].rawE
 	})
 	for _, re := range all {
 		re.ed.From = intern(re.from)
